@@ -377,12 +377,17 @@ struct Run
 		if(! failed && ! subj->empty(key)) fail("cl.probe.empty", "list not empty after removing every callback");
 	}
 
+	static int listCsGroup(const char * tag) { return strncmp(tag, "cs.cbl.", 7) == 0 ? 1 : 0; }
+	static int dispCsGroup(const char * tag) { return strncmp(tag, "cs.disp.", 8) == 0 ? 2 : 0; }
+
 	void run() {
 		const int cfg = prog.params.size() > 0 ? ((prog.params[0] % 4) + 4) % 4 : 0;
 		const int strategy = prog.params.size() > 1 ? ((prog.params[1] % 3) + 3) % 3 : 0;
 		ChoiceSource choice(prog, fnv1a(toText(prog)));
 		installSchedHook();
 		sched.reset(new Sched(choice, strategy, false));
+		// one list (cfg 0, 1) or one dispatcher whose lists are many (cfg 2, 3): only sections over a single object count
+		sched->csGroupOf = cfg < 2 ? &listCsGroup : &dispCsGroup;
 		switch(cfg) {
 		case 0: subj.reset(new ListSubject<SchedThreading>()); break;
 		case 1: subj.reset(new ListSubject<SchedSpinThreading>()); break;
@@ -411,6 +416,7 @@ struct Run
 			if(a.thread != b.thread && a.key == b.key && structural && a.t0 <= b.t1 && b.t0 <= a.t1) overlapStructural = true;
 		}
 		midPreempt = sched->csPreemptions > 0 || sched->unlockedPreemptions > 0;
+		if(! failed && ! sched->csOverlap.empty()) fail("cl.cs.overlap", "two threads inside critical sections over the same container at once: " + sched->csOverlap);
 		for(int k = 0; k < subj->keys() && ! failed; ++k) checkKey(k, prefix[(size_t)k]);
 		subj.reset();
 		sched.reset();
